@@ -671,23 +671,30 @@ func (r *Rule) AddVariableNegation(v variables.RuleVariable, key string) error {
 	return nil
 }
 
+// transformationStep identifies a chain by the chain it extends and the name of the transformation it
+// appends. (Joining the names with a separator is ambiguous: a transformation may be registered
+// under any name, "a+b" included.)
+type transformationStep struct {
+	parentID int
+	name     string
+}
+
 var transformationIDToName = []string{""}
-var transformationNameToID = map[string]int{"": 0}
+var transformationStepToID = map[transformationStep]int{}
 var transformationIDsLock = sync.Mutex{}
 
 func transformationID(currentID int, transformationName string) int {
 	transformationIDsLock.Lock()
 	defer transformationIDsLock.Unlock()
 
-	currName := transformationIDToName[currentID]
-	nextName := fmt.Sprintf("%s+%s", currName, transformationName)
-	if id, ok := transformationNameToID[nextName]; ok {
+	step := transformationStep{parentID: currentID, name: transformationName}
+	if id, ok := transformationStepToID[step]; ok {
 		return id
 	}
 
 	id := len(transformationIDToName)
-	transformationIDToName = append(transformationIDToName, nextName)
-	transformationNameToID[nextName] = id
+	transformationIDToName = append(transformationIDToName, fmt.Sprintf("%s+%s", transformationIDToName[currentID], transformationName))
+	transformationStepToID[step] = id
 	return id
 }
 
